@@ -113,6 +113,13 @@ func cmdCheck(argv []string) int {
 		return 3
 	}
 	res.LoadS = time.Since(t0).Seconds()
+	if pat := os.Getenv("GOVC_LISTFN"); pat != "" {
+		for k := range eng.funcIndex {
+			if strings.Contains(k, pat) {
+				fmt.Fprintln(os.Stderr, "FN", k)
+			}
+		}
+	}
 	var onlyRe *regexp.Regexp
 	if *only != "" {
 		onlyRe = regexp.MustCompile(*only)
